@@ -510,15 +510,19 @@ func c01Run(r *vlib.Run, i int, c *c01Case, path string, fl *fleet, cfg string) 
 		dump := filepath.Join(vlib.VerifDir, "replay", "C01")
 		os.MkdirAll(dump, 0755)
 		fp := filepath.Join(dump, fmt.Sprintf("%s-seed%d-case%d.input%s", r.Tier, r.Seed, i, c.Container))
-		if r.Violations() < 25 && r.Replay == "" {
-			os.WriteFile(fp, compress(c.Container, c.Content), 0644)
-		}
 		return map[string]interface{}{"input_file": fp, "classes": c.Classes, "container": c.Container, "M": m, "ssh": c.SSH,
 			"mode": mode, "exit": res.Exit, "hung": res.Hung, "size": len(c.Content), "stdout_len": len(res.Stdout),
 			"stderr": vlib.Trunc(string(res.Stderr), 1200)}
 	}
+	// the input of a violating case is kept next to the replay file
+	viol := func(kind string, d map[string]interface{}) {
+		if fp, ok := d["input_file"].(string); ok && r.Violations() < 25 && r.Replay == "" {
+			os.WriteFile(fp, compress(c.Container, c.Content), 0644)
+		}
+		r.Violation(kind, d)
+	}
 	if res.Hung || res.Panicked() {
-		r.Violation("dcat-hung-or-crashed", detail())
+		viol("dcat-hung-or-crashed", detail())
 		return
 	}
 	want := joinMsgs(msgs)
@@ -534,7 +538,7 @@ func c01Run(r *vlib.Run, i int, c *c01Case, path string, fl *fleet, cfg string) 
 			d := detail()
 			d["why"] = why
 			d["stdout_prefix"] = vlib.Trunc(string(res.Stdout), 600)
-			r.Violation("remote-records-malformed", d)
+			viol("remote-records-malformed", d)
 			return
 		}
 		got = got2
@@ -553,7 +557,7 @@ func c01Run(r *vlib.Run, i int, c *c01Case, path string, fl *fleet, cfg string) 
 	d["got_around"] = around(got, firstDiff(got, want))
 	d["want_around"] = around(want, firstDiff(got, want))
 	if res.Exit != 0 {
-		r.Violation("dcat-exit-status", d)
+		viol("dcat-exit-status", d)
 		return
 	}
 	// classify against the recorded findings
@@ -631,13 +635,19 @@ func c01Run(r *vlib.Run, i int, c *c01Case, path string, fl *fleet, cfg string) 
 			}
 		}
 	}
-	r.Violation("content-mismatch", d)
+	viol("content-mismatch", d)
 }
 
+// isSubsequenceOfFrags: rest consists of some of the fragments, in order; the
+// output may end inside a fragment (the client leaves while a long line is
+// still being written to its stdout pipe: a write larger than PIPE_BUF is not
+// atomic).
 func isSubsequenceOfFrags(rest []byte, frags [][]byte) bool {
 	for _, f := range frags {
 		if bytes.HasPrefix(rest, f) {
 			rest = rest[len(f):]
+		} else if len(rest) > 0 && len(rest) < len(f) && bytes.HasPrefix(f, rest) {
+			return true
 		}
 	}
 	return len(rest) == 0
